@@ -112,6 +112,19 @@ def w_transitions(idx):
         for clause, detail, exc in check_step(w, t["op"], t["to"]):
             out.append((opkey(t["op"], clause, exc), detail, {"kind": "transition", "from": t["from"], "op": t["op"], "expected_to": t["to"]}))
         n += 1
+        # the same edit on nodes that carry namespace maps of their own - every other node declares a default namespace
+        # (key None, as an XML import leaves it) and a prefix: child lists and parent links are none of the maps' business
+        if i % 3 == 0:
+            w = World.build(t["from"])
+            for j, x in enumerate(w.nodes):
+                if j % 2 == 0:
+                    x.nsmap = {None: "urn:default", "x": "urn:x"}
+                elif j % 3 == 0:
+                    x.nsmap = {"y": "urn:y"}
+            for clause, detail, exc in check_step(w, t["op"], t["to"]):
+                out.append((opkey(t["op"], clause + ":nodes-carry-namespace-maps", exc), detail,
+                            {"kind": "transition", "from": t["from"], "op": t["op"], "expected_to": t["to"], "variant": "namespace maps incl. a default namespace"}))
+            n += 1
     return n, out
 
 
